@@ -658,6 +658,17 @@ def run_schedule(cfg_a: Dict, cfg_b: Optional[Dict], schedule: List[Tuple], shie
                     ctx.__exit__(None, None, None)
         else:
             if op == "construct":
+                if configured_seed(cfg_a) is None:
+                    # An environment built from a scenario WITHOUT `game.seed` starts from wherever the process-wide generators are - by
+                    # design (`constructProgNoSeed` is not `progOK`: `noSeed_not_ok`), and from then on it runs on its own state. What such
+                    # a construction may take from the process is that generator state and NOTHING else: both runs hand it the same one
+                    # (as the reference of an unseeded `reset()` is handed the used environment's state). Before the F-11 repair this was
+                    # hidden behind the open finding.
+                    import random
+
+                    import numpy as np
+                    random.seed(20240918)
+                    np.random.seed(20240918)
                 envs["A"] = scen.make_env(cfg_a)
                 if globals_fp is not None and own is not None:
                     own.append(json.dumps({**globals_fp(), "generators": rng_fp() if configured_seed(cfg_a) is not None else "-"}, sort_keys=True))
